@@ -730,6 +730,15 @@ class ExprMixin:
             res = VList(elem, seq=z3.Concat(*parts) if len(parts) > 1 else parts[0])
             res.cond_items = (res.seq, out)  # (guard, value) per source item; valid while .seq is this very term
             return res
+        if isinstance(it, VAny) and self.merge_depth == 0 and self.spec_depth == 0:
+            # a dynamic value known (on this path) to be a list: iterate the representation it has (one path per
+            # list representation of the value ADT); anything else stays unsupported
+            for is_rep, elem in ((ValSort.is_LS, Str), (ValSort.is_LI, Int), (ValSort.is_LV, Any)):
+                k = self.known(is_rep(it.t))
+                if k is None:
+                    k = self.decide(is_rep(it.t))
+                if k:
+                    return self._comp_recfun(e, g, coerce(it, SeqOf(elem)), fr)
         if isinstance(it, VList):
             return self._comp_recfun(e, g, it, fr)
         raise Unsupported(f"comprehension over {it}")
